@@ -7,8 +7,9 @@ PID = "C04"
 RULE = ("infer: every tag sequence up to length 3 (quick) / 4 (thorough) over 16 exact types incl. None, object() and "
         "three unrelated user classes, all orderings of random multisets, random sequences to length 200; judged by "
         "the Lean spec inferSpec (join of occurring kinds, nullable iff None occurs) and the model infer; "
-        "promote: all (dtype, value) pairs; results: schema() of arithmetic/join/aggregate/CSV outputs against infer of their "
-        "values. non-trivial = at least two distinct tags in the sequence (or a promotion that changes the dtype)")
+        "promote: all (dtype, value) pairs; results: schema() of arithmetic/join/aggregate/CSV outputs (numeric ladder, and the "
+        "temporal ladder through the _Date routes: date/datetime/mixed columns +/- days as scalar, int vector, list, timedelta, "
+        "with None on either side, comparisons, joins, aggregates) against infer of their values. non-trivial = at least two distinct tags in the sequence (or a promotion that changes the dtype)")
 ASSUMPTIONS = ["elements are instances of exactly the listed classes (subclasses of the ladder types are not modelled)",
                "promote_with / infer_kind / validate_scalar inspect only the exact type of a value (tabulation assumption)"]
 BUDGET_S = {"quick": 25, "thorough": 240}
@@ -47,8 +48,8 @@ def generate(rng, tier):
         if rng.random() < 0.3:
             tags.insert(rng.randrange(len(tags)), 0)
         yield {"fam": "infer", "tags": tags, "variant": 0, "pool": "equal"}
-    for i in range(200 if tier == "quick" else 4000):
-        yield {"fam": "result", "op": rng.choice(["add", "mul", "truediv", "radd", "join", "aggregate", "csv", "neg", "window", "scalar", "scalar", "rscalar", "tscalar"]),
+    for i in range(3000 if tier == "quick" else 40000):
+        yield {"fam": "result", "op": rng.choice(["add", "mul", "truediv", "radd", "join", "aggregate", "csv", "neg", "window", "scalar", "scalar", "rscalar", "tscalar", "dateadd", "dateadd", "datesub", "datecmp", "datejoin", "dateagg"]),
                "a": [rng.choice([0, 1, 2, 3]) for _ in range(rng.randint(1, 5))], "seed": rng.randint(0, 10**6)}
 
 
@@ -111,6 +112,36 @@ def _result(spec):
                 r = f(k, Vector(aa))
             else:
                 r = rng.choice(f(Table({"p": aa, "q": aa}), k).cols())
+        elif op in ("dateadd", "datesub", "datecmp", "datejoin", "dateagg"):
+            # the temporal ladder through the dedicated _Date routes: date (+|-) days as scalar / int vector / list, with None on
+            # either side, mixed date/datetime columns, and their join / aggregate columns
+            import operator
+            from datetime import date, datetime, timedelta
+            n = len(a)
+            mk = rng.choice(["date", "date", "datetime", "mixed"])
+            def dval(i):
+                if mk == "date" or (mk == "mixed" and i % 2 == 0):
+                    return date(2020, 1, 1 + i)
+                return datetime(2020, 1, 1 + i, 5)
+            ds = [None if c == 0 and rng.random() < 0.7 else dval(i) for i, c in enumerate(spec["a"])]
+            days = [None if rng.random() < 0.3 else rng.choice([1, 2, -3]) for _ in range(n)]
+            if op == "dateadd":
+                other = rng.choice([lambda: Vector(days), lambda: days, lambda: 2, lambda: timedelta(days=1),
+                                    lambda: Vector([None if x is None else timedelta(days=x) for x in days])])()
+                r = rng.choice([lambda: Vector(ds) + other, lambda: other + Vector(ds)])()
+            elif op == "datesub":
+                other = rng.choice([lambda: Vector(ds[::-1]), lambda: 2, lambda: timedelta(days=1), lambda: Vector(days)])()
+                r = Vector(ds) - other
+            elif op == "datecmp":
+                r = rng.choice([operator.lt, operator.eq, operator.ge])(Vector(ds), rng.choice([ds[0] or dval(0), Vector(ds[::-1])]))
+            elif op == "datejoin":
+                L = Table({"k": list(range(n)), "d": ds})
+                R = Table({"k": [0, 2, 7], "e": [dval(0), None, dval(2)]})
+                r = rng.choice(rng.choice([L.join, L.full_join, L.inner_join])(R, "k", "k", expect="many_to_many").cols())
+            else:
+                t = Table({"k": [rng.choice([1, 2]) for _ in ds], "d": ds})
+                f = rng.choice([t.aggregate, t.window])
+                r = rng.choice(f(over="k", min_over="d", max_over="d", count_over="d").cols())
         elif op == "radd":
             r = rng.choice([1, 1.5, True]) + Vector(a)
         elif op == "neg":
